@@ -365,6 +365,214 @@ example : procCheck {} (Proc.obsTrace {} [⟨.logs, 5, .ok 3 false⟩, ⟨.logs,
 /-- outgoing recorded as 5 while the next consumer received 3 is rejected -/
 example : procCheck {} [{ sig := .logs, inp := 5, sink := some 3, after := { incoming := add (fun _ => 0) .logs 5, outgoing := add (fun _ => 0) .logs 5 } }] = false := by decide
 
+/-! ## concurrent receive operations -/
+
+theorem sumBy_perm {α : Type} (f : α → Nat) {l₁ l₂ : List α} (h : l₁.Perm l₂) : sumBy f l₁ = sumBy f l₂ := by
+  induction h with
+  | nil => rfl
+  | cons x _ ih => simp [sumBy, ih]
+  | swap x y l => simp [sumBy]; omega
+  | trans _ _ ih₁ ih₂ => exact ih₁.trans ih₂
+
+theorem Recv.ext' {a b : Recv} (h₁ : ∀ s, a.accepted s = b.accepted s) (h₂ : ∀ s, a.refused s = b.refused s) : a = b := by
+  cases a; cases b
+  simp only [Recv.mk.injEq]
+  exact ⟨funext h₁, funext h₂⟩
+
+/-- **order independence**: the counters after a set of receive operations do not depend on the order in
+which they took effect — any two schedules of the same operations end in the same counters -/
+theorem C19_receiver_perm (c : Recv) {ops₁ ops₂ : List RecvOp} (h : ops₁.Perm ops₂) : c.run ops₁ = c.run ops₂ := by
+  apply Recv.ext'
+  · intro s; rw [run_accepted, run_accepted]; simp only [offeredOk, sumBy_perm _ h]
+  · intro s; rw [run_refused, run_refused]; simp only [offeredErr, sumBy_perm _ h]
+
+/-- **concurrent histories**: goroutines `threads` each perform their own list of operations on shared
+`ObsReport`s; every counter addition is atomic, so what happened is *some* schedule `sched` containing exactly
+the operations of all threads (any interleaving is such a permutation).  Whatever the schedule, every signal's
+final accepted / refused is the starting value plus what the successful / failed operations of that signal
+offered, and accepted + refused grows by everything offered to that signal. -/
+theorem C19_receiver_concurrent (c : Recv) (threads : List (List RecvOp)) (sched : List RecvOp)
+    (h : sched.Perm threads.flatten) (s : Signal) :
+    (c.run sched).accepted s = c.accepted s + offeredOk s threads.flatten ∧
+    (c.run sched).refused s = c.refused s + offeredErr s threads.flatten ∧
+    (c.run sched).accepted s + (c.run sched).refused s = c.accepted s + c.refused s + offered s threads.flatten := by
+  rw [C19_receiver_perm c h]
+  have ha := run_accepted c threads.flatten s
+  have hr := run_refused c threads.flatten s
+  have hs := offered_split s threads.flatten
+  exact ⟨ha, hr, by omega⟩
+
+/-- the batch oracle evaluated on observed counters is sound … -/
+theorem C19_recv_batch_sound (before after : Recv) (ops : List RecvOp) (h : recvBatchB before after ops = true) (s : Signal) :
+    after.accepted s = before.accepted s + offeredOk s ops ∧ after.refused s = before.refused s + offeredErr s ops ∧
+    after.accepted s + after.refused s = before.accepted s + before.refused s + offered s ops := by
+  have := List.all_eq_true.mp h s (Signal.mem_all s)
+  simp only [Bool.and_eq_true, beq_iff_eq] at this
+  have hs := offered_split s ops
+  exact ⟨this.1, this.2, by omega⟩
+
+/-- … and the model passes it under every schedule of the batch -/
+theorem C19_recv_batch_model (c : Recv) (ops sched : List RecvOp) (h : sched.Perm ops) : recvBatchB c (c.run sched) ops = true := by
+  apply List.all_eq_true.mpr
+  intro s _
+  rw [C19_receiver_perm c h, run_accepted, run_refused]
+  simp
+
+example : Recv.run {} [⟨.logs, 3, true⟩, ⟨.traces, 1, false⟩, ⟨.logs, 2, false⟩] = Recv.run {} [⟨.logs, 2, false⟩, ⟨.logs, 3, true⟩, ⟨.traces, 1, false⟩] :=
+  C19_receiver_perm {} (by decide)
+/-- a lost update (one of two concurrent additions of 2 and 3 log records missing) is rejected -/
+example : recvBatchB {} { accepted := add (fun _ => 0) .logs 3 } [⟨.logs, 2, false⟩, ⟨.logs, 3, false⟩] = false := by decide
+
+/-! ## scraper cross-balance: per-scraper scraped counters against the receiver counters -/
+
+theorem sumBy_append' {α : Type} (f : α → Nat) (l₁ l₂ : List α) : sumBy f (l₁ ++ l₂) = sumBy f l₁ + sumBy f l₂ := by
+  induction l₁ with
+  | nil => simp [sumBy]
+  | cons x xs ih => simp [sumBy, ih]; omega
+
+theorem sumRange_add (k : Nat) (f g : Nat → Nat) : sumRange k (fun i => f i + g i) = sumRange k f + sumRange k g := by
+  induction k with
+  | zero => rfl
+  | succ k ih => simp only [sumRange, ih]; omega
+
+theorem sumRange_zero (k : Nat) : sumRange k (fun _ => 0) = 0 := by
+  induction k with
+  | zero => rfl
+  | succ k ih => simp [sumRange, ih]
+
+theorem sumRange_resAt_take (rs : List ScrapeRes) (g : ScrapeRes → Nat) (k : Nat) :
+    sumRange k (resAt rs g) = sumBy g (rs.take k) := by
+  induction k with
+  | zero => simp [sumRange, sumBy]
+  | succ k ih =>
+    rw [sumRange, ih, List.take_add_one, sumBy_append']
+    cases h : rs[k]? <;> simp [resAt, h, sumBy]
+
+theorem sumRange_resAt (rs : List ScrapeRes) (g : ScrapeRes → Nat) (k : Nat) (hk : rs.length ≤ k) :
+    sumRange k (resAt rs g) = sumBy g rs := by
+  rw [sumRange_resAt_take, List.take_of_length_le hk]
+
+theorem sumRange_sumBy (k : Nat) (ts : List Tick) (F : Tick → Nat → Nat) :
+    sumRange k (fun i => sumBy (fun t => F t i) ts) = sumBy (fun t => sumRange k (F t)) ts := by
+  induction ts with
+  | nil => simp [sumBy, sumRange_zero]
+  | cons t ts ih => simp only [sumBy]; rw [sumRange_add, ih]
+
+theorem sumBy_sumRange_resAt (g : ScrapeRes → Nat) (k : Nat) (ts : List Tick) (hk : ∀ t ∈ ts, t.results.length ≤ k) :
+    sumBy (fun t => sumRange k (resAt t.results g)) ts = sumBy (fun t => sumBy g t.results) ts := by
+  induction ts with
+  | nil => rfl
+  | cons t ts ih =>
+    simp only [sumBy]
+    rw [ih (fun t' ht' => hk t' (List.mem_cons_of_mem _ ht')), sumRange_resAt _ _ _ (hk t List.mem_cons_self)]
+
+/-- for a controller with `k` scrapers, the per-scraper scraped counters add up to everything the scrapers
+reported as scraped, in the unit `wrapObs*` counts (`MetricCount()` / `LogRecordCount()`) … -/
+theorem scraped_total (sig : Signal) (ts : List Tick) (k : Nat) (hk : ∀ t ∈ ts, t.results.length ≤ k) :
+    sumRange k (Scr.run sig {} ts).scraped = totalUnits ts := by
+  have h : (Scr.run sig {} ts).scraped = fun i => sumBy (fun t => resAt t.results ScrapeRes.scraped i) ts :=
+    funext (fun i => (C19_scraper_per_scraper sig ts i).1)
+  rw [h, sumRange_sumBy, sumBy_sumRange_resAt _ _ _ hk]
+  rfl
+
+/-- … while accepted + refused of the signal the scrape function reports under is everything that was kept
+for the next consumer, in items -/
+theorem recv_total (sig : Signal) (ts : List Tick) :
+    (Scr.run sig {} ts).recv.accepted sig + (Scr.run sig {} ts).recv.refused sig = totalItems ts := by
+  have h1 := (C19_receiver (tickOps sig ts) sig).2.2
+  rw [scr_recv, h1, offered_tickOps]; rfl
+
+/-- **cross-balance, exactly**: the scraped counters of the `k` scrapers add up to accepted + refused of the
+controller's signal **iff** the scrapers' payloads reported as many units as items over the history -/
+theorem C19_scraper_cross_iff (sig : Signal) (ts : List Tick) (k : Nat) (hk : ∀ t ∈ ts, t.results.length ≤ k) :
+    (sumRange k (Scr.run sig {} ts).scraped =
+      (Scr.run sig {} ts).recv.accepted sig + (Scr.run sig {} ts).recv.refused sig) ↔ totalUnits ts = totalItems ts := by
+  rw [scraped_total sig ts k hk, recv_total]
+
+theorem units_items_of (ts : List Tick) (h : UnitsAreItems ts) : totalUnits ts = totalItems ts := by
+  induction ts with
+  | nil => rfl
+  | cons t ts ih =>
+    have ht : sumBy ScrapeRes.scraped t.results = t.count := by
+      have : ∀ rs : List ScrapeRes, (∀ r ∈ rs, r.scraped = r.kept) → sumBy ScrapeRes.scraped rs = sumBy ScrapeRes.kept rs := by
+        intro rs
+        induction rs with
+        | nil => intro _; rfl
+        | cons r rs ihr =>
+          intro hr
+          simp only [sumBy]
+          rw [hr r List.mem_cons_self, ihr (fun r' h' => hr r' (List.mem_cons_of_mem _ h'))]
+      exact this t.results (h t List.mem_cons_self)
+    simp only [totalUnits, totalItems, sumBy] at ih ⊢
+    rw [ht, ih (fun t' ht' => h t' (List.mem_cons_of_mem _ ht'))]
+
+/-- **cross-balance** for a controller whose scraped-counter unit *is* the item (the logs controller: both
+are `LogRecordCount()`): for every history, Σᵢ scraped log records of the scrapers = accepted + refused log
+records of the receiver; failed scrapers contribute to neither side, partial ones to both -/
+theorem C19_scraper_cross_balance (sig : Signal) (ts : List Tick) (k : Nat) (hk : ∀ t ∈ ts, t.results.length ≤ k)
+    (hu : UnitsAreItems ts) :
+    sumRange k (Scr.run sig {} ts).scraped =
+      (Scr.run sig {} ts).recv.accepted sig + (Scr.run sig {} ts).recv.refused sig :=
+  (C19_scraper_cross_iff sig ts k hk).mpr (units_items_of ts hu)
+
+/-- the logs scraper controller of the current source -/
+theorem C19_scraper_logs_cross (ts : List Tick) (k : Nat) (hk : ∀ t ∈ ts, t.results.length ≤ k) (hu : UnitsAreItems ts) :
+    sumRange k (Scr.run scrapeLogsSignal {} ts).scraped =
+      (Scr.run scrapeLogsSignal {} ts).recv.accepted .logs + (Scr.run scrapeLogsSignal {} ts).recv.refused .logs := by
+  have h : scrapeLogsSignal = .logs := by decide
+  rw [h]; exact C19_scraper_cross_balance .logs ts k hk hu
+
+/-- **watch point, not a finding**: `otelcol_scraper_scraped_metric_points` is fed `MetricCount()` (metrics,
+not points), so for the metrics controller the cross-balance fails as soon as a metric carries a number of
+points other than one — witness: one scrape of one scraper returning 2 points in 1 metric: scraped = 1,
+accepted = 2.  (The statement's receiver/scraper clause is about accepted/refused only, which balance:
+`C19_scraper_metrics`.) -/
+def crossWitness : List Tick := [⟨[.ok 2 1], false⟩]
+
+theorem C19_scraper_metrics_cross_watch :
+    sumRange 1 (Scr.run .metrics {} crossWitness).scraped = 1 ∧
+    (Scr.run .metrics {} crossWitness).recv.accepted .metrics + (Scr.run .metrics {} crossWitness).recv.refused .metrics = 2 ∧
+    ¬ UnitsAreItems crossWitness := by
+  refine ⟨by decide, by decide, ?_⟩
+  intro h
+  have := h ⟨[.ok 2 1], false⟩ (by simp [crossWitness]) (.ok 2 1) (by simp)
+  simp [ScrapeRes.scraped, ScrapeRes.kept] at this
+
+/-- non-vacuity of the hypotheses: three scrapers (ok, partial, failed with data that is dropped), two scrapes -/
+example : let ts : List Tick := [⟨[.ok 3 3, .partialErr 2 2 4, .fail 9], false⟩, ⟨[.fail 1, .ok 1 1, .ok 0 0], true⟩]
+    (∀ t ∈ ts, t.results.length ≤ 3) ∧ (∀ t ∈ ts, ∀ r ∈ t.results, r.scraped = r.kept) ∧
+    sumRange 3 (Scr.run .logs {} ts).scraped = 6 ∧ (Scr.run .logs {} ts).recv.accepted .logs + (Scr.run .logs {} ts).recv.refused .logs = 6 := by
+  decide
+
+/-! ## profiles next to the counted signals -/
+
+theorem runX_eq (p : Proc) (xs : List XOp) : p.runX xs = p.run (sigOps xs) := by
+  induction xs generalizing p with
+  | nil => rfl
+  | cons x xs ih =>
+    cases x with
+    | sig op => exact ih _
+    | prof n o => exact ih p
+
+/-- **profiles move no item counter**: in every history that mixes payloads of the three counted signals with
+profiles payloads (any outcome of the profiles process function and next consumer), incoming / outgoing of
+every signal are exactly what the counted payloads alone account for (`C19_processor` on `sigOps`) — the
+profiles helper has no `otel.signal = profiles` series and does not leak into the others -/
+theorem C19_processor_profiles (xs : List XOp) (s : Signal) :
+    (Proc.runX {} xs).incoming s = given s (sigOps xs) ∧
+    (Proc.runX {} xs).outgoing s = (Proc.runX {} xs).fwdItems s ∧
+    (Proc.runX {} xs).outgoing s = forwardedBy s (sigOps xs) := by
+  rw [runX_eq]; exact C19_processor (sigOps xs) s
+
+/-- one profiles payload, seen from outside, is a step in which nothing was given and nothing forwarded under any signal -/
+theorem C19_profiles_step (p : Proc) (n : Nat) (o : ProcOutcome) (s : Signal) :
+    ProcStepOK p.snap { sig := s, inp := 0, sink := none, after := ((p.consumeX (.prof n o)).1).snap } ∧
+    (p.consumeX (.prof n o)).2 = profRet o := by
+  refine ⟨⟨?_, ?_, ?_⟩, rfl⟩ <;> simp [Proc.consumeX]
+
+example : let p := Proc.runX {} [.sig ⟨.logs, 5, .ok 3 false⟩, .prof 7 (.ok 9 false), .prof 2 .err, .sig ⟨.logs, 1, .skip⟩, .prof 4 .skip]
+    p.incoming .logs = 6 ∧ p.outgoing .logs = 3 ∧ p.incoming .traces = 0 ∧ p.incoming .metrics = 0 := by decide
+
 -- === exporter clause (added separately below) ===
 
 /-! ## exporter: sent + send-failed (+ enqueue-failed) against what was given, over the shutdown LTS of property C03
@@ -445,13 +653,13 @@ open OtelVerif.C03 in
 (`C03.demoPersistent`): given 3, sent 1, send-failed 1, stored 2 (`[1]` kept, `[3]` never dispatched) — 1 + 1 + 2 ≠ 3 -/
 theorem C19_exporter_balance_full_fails : ¬ C19_exporter_balance_full := by
   intro hfull
-  cases hd : runFrom (init ⟨true, false, true⟩ 2 0 false) demoPersistent with
+  cases hd : runFrom (init { persistent := true, batching := false, retry := true } 2 0 false) demoPersistent with
   | none =>
-    have : (runFrom (init ⟨true, false, true⟩ 2 0 false) demoPersistent).isSome = true := by decide
+    have : (runFrom (init { persistent := true, batching := false, retry := true } 2 0 false) demoPersistent).isSome = true := by decide
     simp [hd] at this
   | some s =>
     have hr : Reachable s := reachable_of_runFrom demoPersistent (Reachable.init _ _ _ _) hd
-    have hv : (runFrom (init ⟨true, false, true⟩ 2 0 false) demoPersistent).map
+    have hv : (runFrom (init { persistent := true, batching := false, retry := true } 2 0 false) demoPersistent).map
         (fun s => (s.phase, s.cfg.persistent, sentOf s, failedOf s, storedOf s, s.accepted.length)) = some (5, true, 1, 1, 2, 3) := by decide
     rw [hd] at hv
     simp only [Option.map_some, Option.some.injEq, Prod.mk.injEq] at hv
